@@ -22,6 +22,24 @@ class Ctx:
         self.F, self.tier, self.seed = F, tier, seed
 
 
+def arithmetic_unused(res):
+    """Every rule reasons about the mathematical value of the integer expressions it interprets.  Where the code may
+    overflow (it then panics in a debug build and wraps in a release build) that value is not the one computed, so an
+    undischarged overflow / division obligation met while analysing for this property is reported under it as well."""
+    from . import interp
+    seen = set()
+    for I in interp.REGISTRY:
+        for o in I.obligations:
+            if o.ok or not (o.kind.startswith("overflow") or o.kind == "div-zero"):
+                continue
+            k = (o.kind, o.fn, str(o.goal))
+            if k in seen:
+                continue
+            seen.add(k)
+            res.ob(False, o.kind, o.fn, o.goal, o.span, detail="arithmetic may overflow here (debug: panic, release: wrap-around): "
+                   "the value the rule reasons about is not the one the program computes", pc=o.pc, entry=o.entry)
+
+
 def main(argv=None):
     ap = argparse.ArgumentParser()
     ap.add_argument("prop")
